@@ -122,6 +122,9 @@ def random_cases(rng, n):
             # max_steps stops the run, the limit is raised, solve() again
             c['resume'] = rng.randint(1, 12)
             c['maxsteps'] = rng.choice([BIG, c['resume'] + rng.randint(0, 9)])
+        elif rng.random() < 0.2 and c['maxsteps'] == BIG:
+            # the run ends at an earlier final time, which is then moved on
+            c['extend'] = tf * rng.choice([0.25, 0.5, rng.uniform(0.1, 0.9)])
         yield c
 
 
@@ -307,8 +310,9 @@ def run():
         'in force is a function of the step, not of how often the solver '
         'asked); no particles',
         'continued runs: max_steps stops solve(), the limit is raised and '
-        'solve() is called again on the same object; each call is judged as '
-        'a run from (t0, c0)',
+        'solve() is called again on the same object (or the run ends at an '
+        'earlier final time, set_final_time moves it on, solve() again); '
+        'each call is judged as a run from (t0, c0)',
         'exact runs: 1 tick = 2^-4 so float arithmetic is exact and the '
         "solver's epsilon tests reduce to integer comparisons",
         'quantised runs: unit tf*2^-28, slack e=2 units in the clauses that '
